@@ -4,6 +4,7 @@ import MaestroVerif.Lemmas.CsvLemmas
 import MaestroVerif.Lemmas.ExpandPlace
 import MaestroVerif.Lemmas.ExpandAdj
 import MaestroVerif.Lemmas.ExpandInv
+import MaestroVerif.Lemmas.ExpandNodes
 
 /-!
 # C08 — Parameter expansion creates exactly the right instances and edges
@@ -373,6 +374,15 @@ theorem C08_exactly_one_instance_per_name (spec : Spec) (ord : List Str → List
     (h : stage spec ord = .ok r) :
     (r.insts.map (·.name)).Nodup ∧ ∀ i, i ∈ r.insts → r.hasNode i.name = true :=
   stage_uniqueNames spec ord r h
+
+/-- **no dangling edge, in the finished graph**: every member of a dependency set and every child in
+the adjacency table is a node - an instance or `_source` - for every specification and iteration
+order (an edge to a step that was never instantiated is refused while staging, `edgeSrcMissing`) -/
+theorem C08_no_dangling_edge (spec : Spec) (ord : List Str → List Str) (r : XG)
+    (h : stage spec ord = .ok r) :
+    (∀ k x, x ∈ getAssoc r.deps k → r.hasNode x = true) ∧
+    (∀ k x, x ∈ getAssoc r.adj k → r.hasNode x = true) :=
+  stage_noDangling spec ord r h
 
 /-- the lifting itself: a property of the graph that no placement destroys holds of every
 expansion (used above; stated here because it is how the per-placement theorems of this file
